@@ -215,6 +215,9 @@ class Verifier:
                         if res.cover == "unsat":
                             raise Reject("VACUOUS: requires of %s is contradictory" % self.qname)
                     try:
+                        if getattr(c, "refines", None) is not None:
+                            # refinement check: the only "statement" is one use of the #body contract on the same arguments
+                            raise Return_(run.apply_contract(c.refines, [], dict(self.entry_args)))
                         run.exec_block(run.body_of(fdef, c))
                         ret = NONE_SV
                         self.exit_normal(run, ret, cls, fdef)
